@@ -1677,8 +1677,19 @@ func (p *PubSub) publishMessageBatch(batchAndOpts messageBatchAndPublishOptions)
 		p.tracer.DeliverMessage(msg)
 		p.notifySubs(msg)
 	}
+	// local-only publications are delivered to our own subscribers above and never
+	// handed to the router (as in publishMessage)
+	toRoute := make([]*Message, 0, len(batchAndOpts.messages))
+	for _, msg := range batchAndOpts.messages {
+		if !msg.Local {
+			toRoute = append(toRoute, msg)
+		}
+	}
+	if len(toRoute) == 0 {
+		return
+	}
 	// We type checked when pushing the batch to the channel
-	p.rt.(BatchPublisher).PublishBatch(batchAndOpts.messages, batchAndOpts.opts)
+	p.rt.(BatchPublisher).PublishBatch(toRoute, batchAndOpts.opts)
 }
 
 type addTopicReq struct {
